@@ -3,6 +3,7 @@ package props
 import (
 	"fmt"
 	"google.golang.org/protobuf/proto"
+	"sync"
 
 	"github.com/advancedclimatesystems/gonnx/onnx"
 	"gorgonia.org/tensor"
@@ -259,6 +260,9 @@ func c12Run(c *Ctx) {
 	if !proto.Equal(snapshot, tp) {
 		c.Violation("decode:message-modified", "TensorFromProto changed the TensorProto it decoded | %s", c.caseStr)
 	}
+	if c.Idx%256 == 5 && first.Kind == mon.Value {
+		c12Concurrent(c, tp, first)
+	}
 	if c.Idx%4 == 2 {
 		second := decode()
 		c.Eval(1)
@@ -280,5 +284,106 @@ func c12Run(c *Ctx) {
 	}
 	if c.Idx%12000 == 31 {
 		c.Sample(map[string]any{"case": c.caseStr, "expectation": exp.Kind.String(), "why": exp.Why})
+	}
+}
+
+// c12Concurrent decodes the message in several goroutines at once, next to
+// goroutines decoding other messages (clones of it with the payload reversed):
+// every decoding must give what the sequential decoding gave (a decoder that
+// keeps scratch state in a package-level variable mixes the payloads up). A
+// deviation is reported only when it shows again in a second round: a one-off
+// could be the recorded collector-related defect of gorgonia (C17 finding), a
+// decoder defect shows in every round.
+func c12Concurrent(c *Ctx, small *onnx.TensorProto, _ mon.Outcome) {
+	// a longer message of the same type and encoding (the payload repeated), so that
+	// the decodings really overlap in time
+	tp := proto.Clone(small).(*onnx.TensorProto)
+	const reps = 512
+	n := int64(1)
+	for _, d := range tp.Dims {
+		n *= d
+	}
+	if n <= 0 || n > 64 {
+		return
+	}
+	tp.Dims = []int64{n * reps}
+	rep := func(k int, grow func()) {
+		if k > 0 {
+			for i := 1; i < reps; i++ {
+				grow()
+			}
+		}
+	}
+	raw, f32, i32, i64, f64, u64 := tp.RawData, tp.FloatData, tp.Int32Data, tp.Int64Data, tp.DoubleData, tp.Uint64Data
+	rep(len(raw), func() { tp.RawData = append(tp.RawData, raw...) })
+	rep(len(f32), func() { tp.FloatData = append(tp.FloatData, f32...) })
+	rep(len(i32), func() { tp.Int32Data = append(tp.Int32Data, i32...) })
+	rep(len(i64), func() { tp.Int64Data = append(tp.Int64Data, i64...) })
+	rep(len(f64), func() { tp.DoubleData = append(tp.DoubleData, f64...) })
+	rep(len(u64), func() { tp.Uint64Data = append(tp.Uint64Data, u64...) })
+	first := mon.Capture(nil, func() ([]tensor.Tensor, error) {
+		t, err := onnx.TensorFromProto(tp)
+		if err != nil {
+			return nil, err
+		}
+		return []tensor.Tensor{t}, nil
+	})
+	if first.Kind != mon.Value {
+		return
+	}
+	other := proto.Clone(tp).(*onnx.TensorProto)
+	for i, j := 0, len(other.RawData)-1; i < j; i, j = i+1, j-1 {
+		other.RawData[i], other.RawData[j] = other.RawData[j], other.RawData[i]
+	}
+	for i, j := 0, len(other.FloatData)-1; i < j; i, j = i+1, j-1 {
+		other.FloatData[i], other.FloatData[j] = other.FloatData[j], other.FloatData[i]
+	}
+	round := func() string {
+		const G = 6
+		diffs := make([]string, G)
+		var wg sync.WaitGroup
+		start := make(chan struct{})
+		for g := 0; g < G; g++ {
+			wg.Add(1)
+			go func(g int) {
+				defer wg.Done()
+				<-start
+				for k := 0; k < 8; k++ {
+					msg := tp
+					if g%2 == 1 {
+						msg = other
+					}
+					o := mon.Capture(nil, func() ([]tensor.Tensor, error) {
+						t, err := onnx.TensorFromProto(msg)
+						if err != nil {
+							return nil, err
+						}
+						return []tensor.Tensor{t}, nil
+					})
+					if g%2 == 0 {
+						if d := diffOutcomes(first, o); d != "" && diffs[g] == "" {
+							diffs[g] = d
+						}
+					}
+				}
+			}(g)
+		}
+		close(start)
+		wg.Wait()
+		for _, d := range diffs {
+			if d != "" {
+				return d
+			}
+		}
+		return ""
+	}
+	c.Count("concurrent-decoding-rounds", 1)
+	c.Eval(1)
+	if d := round(); d != "" {
+		if d2 := round(); d2 != "" {
+			c.Violation("decode:concurrent-decoding-differs", "6 goroutines decoding at once (3 this message, 3 another one): a result differs from the sequential decoding, in two rounds out of two: %s | %s", d, c.caseStr)
+		} else {
+			c.Count("concurrent-decoding-deviation-not-reproduced", 1)
+		}
 	}
 }
